@@ -194,10 +194,19 @@ def handleParse (s : Sess) (i : Nat) (op impl : Json) (line2 : Option Json := no
         -- add up to 64 KiB that no byte of the buffer pays for (CostPrealloc.lean walks the buffer as the parser does and sums an upper
         -- bound of these reservations).  The additive constant covers the other fixed costs; the reservations are allowed on top (×2).
         let pre := if wants op "alloc" then Cost.preallocOf c before buf else 0
-        let peakOk : Bool := Cost.allocBounded 64 16 (131072 + 2 * pre) buf a.pkts peak
+        -- WORK that is legitimately discarded: a packet / set that fails late throws away what was decoded before (an IPFIX record of
+        -- one-byte fields costs a map of several hundred bytes per byte; 4-byte V9 flowsets cost ~140 bytes per byte in bookkeeping), so
+        -- no byte of the RESULT pays for it.  The allowance therefore adds the modelled data-path work of this call (`Cost.workOf`,
+        -- CostWork.lean: decode attempts of the record loops as the code runs them now, IPFIX template-element copies) — for templates
+        -- without zero-length fields every attempt consumes a byte (`C15_ipfix_work_product`, `C15_v9_work_paid_by_records`), so the bound
+        -- stays linear in |buf|; A covers the per-flowset bookkeeping.  (A false alarm of the earlier A = 64 without work term, found
+        -- under VERIF_SEED=1: 2171 empty options-data flowsets discarded by a failing last flowset, 1.2 MB for 8.7 KB.)
+        let work := if wants op "alloc" then Cost.workOf c before buf else 0
+        let allow := 131072 + 2 * pre + 1024 * work
+        let peakOk : Bool := Cost.allocBounded 192 16 allow buf a.pkts peak
         let c15 : List (String × Bool) :=
           if wants op "alloc" then
-            [("C15", a.outcome != "done" || (Cost.allocBounded 64 16 (131072 + 2 * pre) buf a.pkts alloc && peakOk && Cost.resultBounded 256 1024 buf before a.pkts))]
+            [("C15", a.outcome != "done" || (Cost.allocBounded 192 16 allow buf a.pkts alloc && peakOk && Cost.resultBounded 256 1024 buf before a.pkts))]
           else []
         let orc := orc ++ c07 a ++ c17 ++ c16 ++ c15
         let morc := morc ++ c07 m
@@ -221,13 +230,11 @@ def handleParse (s : Sess) (i : Nat) (op impl : Json) (line2 : Option Json := no
           (if (before.ipT.any (fun e => e.2.fields.any fun f => f.len == 0) || before.ipO.any (fun e => e.2.fields.any fun f => f.len == 0) ||
               before.v9T.any (fun e => e.2.fields.any fun f => f.len == 0)) &&
               -- the recorded finding is what zero-length fields do to ONE decode attempt per record: a template of k such fields costs k
-              -- operations and k entries per record whatever the record's bytes.  It does not excuse work the model does not do: the
-              -- allocation must stay within the property's bound plus the modelled data-path work (`Cost.workOf`, CostWork.lean: decode
-              -- attempts of the record loops as the code runs them now; Props/C15c.lean bounds it by the records returned plus one
-              -- template's worth per flowset).  A loop that retries, or clones the template per iteration, is outside the class.
+              -- operations and k entries per record whatever the record's bytes (so `workOf` and the result are not linear in |buf|).
+              -- It excuses the SECOND half of C15 only; the allocation must stay within the allowance above (property bound plus the
+              -- modelled work).  A loop that retries, or clones the template per iteration, is outside the class.
               (!wants op "alloc" ||
-                (let w := 2048 * Cost.workOf c before buf
-                 Cost.allocBounded 64 16 (131072 + 2 * pre + w) buf a.pkts alloc && Cost.allocBounded 64 16 (131072 + 2 * pre + w) buf a.pkts peak))
+                (Cost.allocBounded 192 16 allow buf a.pkts alloc && peakOk))
             then ["c15-zero-length-fields"] else [])
         let unkNow : Bool := match line2 with
           | some j2 => (match (fromJson? j2 : Except String ParseAns) with
@@ -417,6 +424,16 @@ def handle (s : Sess) (line : Json) : Sess × Json :=
       Json.mkObj [("i", i), ("kind", "new")])
   | "allowed" =>
     ({ s with allowed := upd s.allowed (getNatD op "p" 0) ((getNatList op "set").getD []) }, Json.mkObj [("i", i), ("kind", "allowed")])
+  | "forget" =>
+    -- the CALLER removes a template id from the public cache maps of one protocol (`parser.v9_parser.templates.remove(&id)` …: template
+    -- expiry); the model erases the id from the same two maps, and so does the recorded implementation state the oracles start from
+    let p := getNatD op "p" 0
+    let id := getNatD op "id" 0
+    let forget (st : PState) : PState :=
+      if getNatD op "proto" 9 == 9 then { st with v9T := amErase id st.v9T, v9O := amErase id st.v9O }
+      else { st with ipT := amErase id st.ipT, ipO := amErase id st.ipO }
+    ({ s with sts := upd s.sts p (forget ((s.sts.lookup p).getD {})), implSts := upd s.implSts p (forget ((s.implSts.lookup p).getD {})) },
+      Json.mkObj [("i", i), ("kind", "forget")])
   | "parse" =>
     if s.dead then (s, Json.mkObj [("i", i), ("kind", "skipped")]) else handleParse s i op impl (line.getObjVal? "impl2").toOption
   | "fixed_roundtrip" => (s, handleFixedRoundtrip s i op impl)
